@@ -152,9 +152,11 @@ def index_results(res):
 
 
 def short_fn(name):
-    name = re.sub(r"<[^<>]*>", "", name)
-    name = re.sub(r"<[^<>]*>", "", name)
-    return name
+    """`<gen_c09::i8_lt::__nutype_N__::N as arbitrary::Arbitrary<'_>>::arbitrary` -> `<N as arbitrary::Arbitrary>::arbitrary`"""
+    name = re.sub(r"gen_c\d+::(?:\w+::)*?(?=__nutype_|\w+$|\w+[ >,])", "", name)
+    name = re.sub(r"__nutype_\w+?__::", "", name)
+    name = re.sub(r"<'_>|<'\w+>", "", name)
+    return name[:140]
 
 
 def failed_checks(r):
